@@ -10,7 +10,7 @@ ID = 'C13'
 LEVEL = 'exploration'
 RULE = ('documents = every sequence of <= n headings over the class levels (chapter..subsubsection, arbitrary level jumps), each '
         'unit with a unique body marker (plus text before the first heading), variants {plain, footnote + label + colliding '
-        'titles with forbidden characters, identical twin units, heading-only last / first unit, a label spelling a numbered name already given / still to come}; also rendered after toXML() and as the second document of one renderer object; plus section + every sequence over '
+        'titles with forbidden characters, identical twin units, heading-only last / first unit, a label spelling a numbered name already given / still to come}; also rendered after toXML() and as the second document of one renderer object / of one configuration object whose first document used a single-file template; plus section + every sequence over '
         'subsubsection..subsubparagraph and the full 7-level chain; x split-level -10..6 x filename templates x bad-chars (x substitute: hyphen, empty, two underscores) x renderer/theme. '
         'Oracle: a unit owns a file iff its level <= split level (one file for a single-name template); body markers are '
         'partitioned over the files exactly as ownership predicts, each exactly once, in document order, footnote text after '
@@ -32,6 +32,7 @@ TEMPLATES = {
     'single_var': '$name-$num',
     'single': 'one',
     'short_static': 'index second',
+    'wide': 'index [$id, $title(12), sect$num(10)]',       # widths of two digits
 }
 SINGLE = ('single_var', 'single')
 THEMES = {'HTML5': ('HTML5', 'default'), 'HTML5min': ('HTML5', 'minimal'), 'XHTML': ('XHTML', 'default')}
@@ -117,7 +118,7 @@ def judge(case, second=False):
     if case.get('sub') is not None:
         cfg[('files', 'bad-chars-sub')] = case['sub']
     pre = (lambda doc: doc.toXML()) if case.get('prexml') else None
-    if case.get('reuse'):
+    if case.get('reuse') or case.get('cfgreuse'):
         out = render_second(case, rname, cfg, src)
     else:
         out = render.render(src, rname, cfg, pre_render=pre)
@@ -214,12 +215,22 @@ def render_second(case, rname, cfg, src):
     try:
         with core.time_limit(120):
             R = importlib.import_module(render.RENDERERS[rname][0]).Renderer()
+            shared = None
+            if case.get('cfgreuse'):
+                # one configuration object serves both documents; the first is written with a single-file template
+                from plasTeX.Config import defaultConfig
+                shared = defaultConfig()
             for sub, text in (('one', other), ('two', src)):
                 d = os.path.join(base, sub)
                 os.makedirs(d)
                 os.chdir(d)
                 state.reset()
-                tex = TeX()
+                if shared is not None:
+                    import plasTeX
+                    tex = TeX(plasTeX.TeXDocument(config=shared))
+                    R = importlib.import_module(render.RENDERERS[rname][0]).Renderer()
+                else:
+                    tex = TeX()
                 doc = tex.ownerDocument
                 doc.context.warnOnUnrecognized = False
                 c = doc.config
@@ -231,6 +242,8 @@ def render_second(case, rname, cfg, src):
                 doc.userdata['working-dir'] = d
                 for (sec, key), val in cfg.items():
                     c[sec][key] = val
+                if shared is not None and sub == 'one':
+                    c['files']['filename'] = 'whole'
                 tex.jobname = 'doc'
                 tex.input(text)
                 tex.parse()
@@ -367,6 +380,10 @@ def extra_blocks(n):
             blocks.append(('book', units, 'rich+prexml', 'idtitle', None, 'XHTML', [1, 2], False))
             blocks.append(('book', units, 'plain+reuse', 'default', None, 'XHTML', [0, 1, 2], False))
             blocks.append(('book', units, 'rich+reuse', 'idtitle', None, 'HTML5', [1], False))
+            blocks.append(('book', units, 'plain+cfgreuse', 'default', None, 'XHTML', [0, 1, 2], False))
+            blocks.append(('book', units, 'plain', 'wide', None, 'XHTML', [0, 1, 2], False))
+            blocks.append(('book', units, 'twins' if len(units) == 2 and units[0] == units[1] else 'rich', 'wide', None, 'HTML5', [1, 2], False))
+            blocks.append(('book', units, 'plain+cfgreuse', 'idtitle', None, 'HTML5', [1], False))
     chain = ('chapter', 'section', 'subsection', 'subsubsection', 'paragraph', 'subparagraph', 'subsubparagraph')
     for theme in THEMES:
         blocks.append(('book', chain, 'plain', 'default', None, theme, splits, False))
